@@ -14,7 +14,9 @@ import numpy as np
 from hypothesis import strategies as st
 
 from vf import solvecase as SC
-from vf.history import adoptions
+from vf import strategies as S
+from vf.history import adoptions, dense_newton_step
+from vf.spec import RefInternal
 from vf.runner import excluded, ok, trivial, violation
 from vf.trace import make_tracing_solver, run_solve
 
@@ -55,13 +57,18 @@ def check(case):
         solver = make_tracing_solver(problem, params)
     except Exception as e:
         return excluded(f"build:{type(e).__name__}", labels)
+    try:
+        vw, cw, ow = S.weights_of(solver, case["spec"])
+        ri = RefInternal(case["spec"], vw, cw, ow)
+    except Exception:
+        ri = None
     # the statement speaks about "a solve": it is checked for the first solve and for a second solve
     # on the same Solver object (state left over from the first run must not enter the second)
     total = 0
     verdict = None
     for which in ("first solve", "second solve on the same Solver"):
         out = run_solve(problem, params, x0, y0, solver=solver)
-        res = _judge(out, solver, params, pen, labels, which)
+        res = _judge(out, solver, params, pen, labels, which, ri)
         total += max(len(out.trials), 1)
         if res["status"] == "violation":
             res["sub"] = total
@@ -73,7 +80,7 @@ def check(case):
     return verdict
 
 
-def _judge(out, solver, params, pen, labels, which):
+def _judge(out, solver, params, pen, labels, which, ri=None):
     labels = list(labels)
     trials = out.trials
     T = len(trials)
@@ -111,6 +118,29 @@ def _judge(out, solver, params, pen, labels, which):
                         return V("dualnorm-more-than-tenfold", f"rho raised from {rhos[t]!r} to {rhos[t+1]!r} across one adoption")
                 elif rhos[t + 1] != rhos[t]:
                     return V("dualnorm-changed-without-adoption", f"rho changed from {rhos[t]!r} to {rhos[t+1]!r} although step {t} was not adopted")
+    # the penalty *used* for a trial step: for the controllers that return the first Newton step of the
+    # implicit Euler equation (Fixed, ResiduumRatio) the returned iterate must be the dense Newton step
+    # for exactly the recorded (dt, rho) -- a penalty that is passed on wrongly shows up here
+    p_ = params
+    if (p_.step_control_type.name in ("Fixed", "ResiduumRatio") and p_.newton_type.name != "Globalized"
+            and p_.active_set_type.name in ("Standard", "Explicit") and p_.linear_solver_type.name == "LU" and ri is not None):
+        tau = p_.active_set_tau if p_.active_set_type.name == "Explicit" else None
+        checked = 0
+        for t, tr in enumerate(trials[:25]):
+            if tr.lamb is None or tr.it_out is tr.it_in:
+                continue
+            X0, Y0 = np.frombuffer(tr.x_in), np.frombuffer(tr.y_in)
+            refstep = dense_newton_step(ri, X0, Y0, tr.dt, tr.rho, tau)
+            if refstep is None:
+                continue
+            Xn, Yn, cond, sn = refstep
+            err = max(float(np.max(np.abs(np.frombuffer(tr.x_out) - Xn), initial=0.0)), float(np.max(np.abs(np.frombuffer(tr.y_out) - Yn), initial=0.0)))
+            allowed = 1e-7 * cond * (1.0 + sn) * (1.0 + float(np.max(np.abs(X0), initial=0.0)) * 1e-3)
+            checked += 1
+            if err > allowed:
+                return V("trial-step-not-newton-step-for-recorded-penalty", f"step {t} (dt={tr.dt!r}, rho={tr.rho!r}): returned iterate differs from the dense Newton step for these values by {err:.3e} > {allowed:.3e}")
+        if checked:
+            labels.append("newton_step_for_recorded_rho_checked")
     changed = len(set(rhos)) > 1
     if changed:
         labels.append("rho_changed")
